@@ -201,6 +201,7 @@ def run_property(prop, tier, seed):
     eng.dead_under_contract = {}
     eng.executed_nodes = set()
     eng.executed_all = set()
+    eng.dead_handlers = {}
     eng.inlined_functions = {}
     problems = R.check_attached(repo)
     if problems:
@@ -243,6 +244,24 @@ def run_property(prop, tier, seed):
             eng.cur_inline_callees = ()
         finally:
             eng.ieee_checks = ieee_default
+    # A-EXC-ENUM guard: an `except H` clause that no feasible path enters although its try statement runs means that the
+    # specifications of the calls inside do not enumerate H (they raise an abstract class that stands for "none of the classes
+    # a handler distinguishes"): what that handler does -- e.g. swallow a failure -- is then not examined.  Such a function is
+    # out of reach (undecided), never silently accepted.
+    oor_targets = {r['function'] for r in out_of_reach}
+    for target, sets in sorted(eng.dead_handlers.items()):
+        common = set.intersection(*sets) if sets else set()
+        if common and target not in oor_targets:
+            out_of_reach.append({'function': target, 'reason': f'except clause(s) at line(s) {sorted(common)} are never entered under the '
+                                 'specifications of the calls they guard (the exception class they name is not enumerated there, A-EXC-ENUM): '
+                                 'what the handler does is not examined'})
+    for q, fi in sorted(eng.inlined_functions.items()):
+        if q in eng.dead_handlers:
+            continue
+        dh = eng.dead_handler_lines(fi, eng.executed_all)
+        if dh:
+            out_of_reach.append({'function': q, 'reason': f'(inlined) except clause(s) at line(s) {dh} are never entered under the specifications '
+                                 'of the calls they guard (A-EXC-ENUM): what the handler does is not examined'})
     # lemmas
     for lp, name, fn in R.lemmas:
         if lp == prop:
